@@ -152,24 +152,30 @@ def check_lwsp(sn, g, res):
       have = ref_lwsp.segments(got)
       if len(want) == len(have) and want != have:
         res.fail("lwsp:collapse:%s" % ctx[0], "%s: got %r expected %r (source %r)" % (ctx[1], have, want, [l[1] for l in texts]))
-    # per-node rules, matching ISD leaves to source leaves in order
-    j = 0
+    # per-node rules: non-blank leaves carry unique tokens, so they are matched by content; blank preserved leaves by count
     gt = [l for l in got if l[0] == "text"]
-    preserved_src = [l[1] for l in texts if l[3] and l[1] != ""]
-    preserved_got = []
+    by_content = {}
+    for l in gt:
+      by_content.setdefault((l[2], nonspace(l[1])), []).append(l[1])
     for l in texts:
-      if j < len(gt) and gt[j][2] == l[2] and nonspace(gt[j][1]) == nonspace(l[1]):
-        t = gt[j][1]
-        j += 1
-        if l[3]:
-          preserved_got.append(t)
-          if t != l[1]:
-            res.fail("lwsp:preserve-changed", "%r -> %r" % (l[1], t))
-        else:
-          if any(ch in t for ch in "\t\r\n") or "  " in t:
-            res.fail("lwsp:default-not-collapsed", "%r -> %r" % (l[1], t))
-    if j == len(gt) and preserved_got != preserved_src and all(nonspace(x) for x in preserved_src):
-      res.fail("lwsp:preserved-node-lost", "%r vs %r" % (preserved_got, preserved_src))
+      key = (l[2], nonspace(l[1]))
+      if not key[1]:
+        continue
+      found = by_content.get(key)
+      if not found:
+        continue      # a lost leaf is C01's business
+      t = found[0]
+      if l[3]:
+        if t != l[1]:
+          res.fail("lwsp:preserve-changed", "%r -> %r" % (l[1], t))
+      elif any(ch in t for ch in "\t\r\n") or "  " in t:
+        res.fail("lwsp:default-not-collapsed", "%r -> %r" % (l[1], t))
+    from collections import Counter
+    want_blank = Counter((l[2], l[1]) for l in texts if l[3] and l[1] != "" and not nonspace(l[1]))
+    have_blank = Counter((l[2], l[1]) for l in gt if not nonspace(l[1]))
+    for key, n in want_blank.items():
+      if have_blank.get(key, 0) < n:
+        res.fail("lwsp:preserved-node-lost", "white-space-only preserved text %r under %s" % (key[1], "/".join(key[0])))
 
 
 def check(case, res):
